@@ -12,6 +12,7 @@ From DBG Require Import Spec.Dna Packed.KmerModel Packed.ExtsModel Packed.Blocks
   Packed.LmerModel Algo.Iter Algo.SeqHist Proofs.KmerDefaults Proofs.LmerProofs Proofs.IterProofs Proofs.DnaStringProofs
   Proofs.IterBridge Proofs.IterBridgeObs.
 From DBG Require Packed.ExtsMini Algo.Filter.
+From DBG Require Proofs.IterBridgeMore.
 Import ListNotations.
 Open Scope N_scope.
 
@@ -179,3 +180,26 @@ Print Assumptions C05B_observations_generic.
 Print Assumptions C05B_observations_bytes.
 Print Assumptions C05B_observations_dnastring.
 Print Assumptions C05B_filter_kmers_packed.
+
+(* ---- further containers (end of session 4): reads given as windows of a DnaString (forward or reverse-complemented) and as
+   fixed-size strings (Lmer) - one-line instances of C05B_observations_generic with C05B_slice_iter / C05B_lmer_iter *)
+Theorem C05B_observations_slice : forall D c, In c shipped -> forall stranded (reads : list ((DnaStringModel.dstr * slc) * N * D)),
+  Forall (fun r => d_inv (fst (fst (fst r))) /\
+                   (s_start (snd (fst (fst r))) + s_length (snd (fst (fst r))) <= d_len (fst (fst (fst r))))%nat /\
+                   snd (fst r) < 256) reads ->
+  packed_observations c
+    (fun ds e => iter_kmer_exts c (s_length (snd ds)) (sl_get (fst ds) (snd ds)) (sl_get_kmer c (fst ds) (snd ds)) e)
+    stranded reads
+  = Some (Filter.observations (kK c) stranded
+            (map (fun r => (sl_view (d_abs (fst (fst (fst r)))) (snd (fst (fst r))), snd (fst r), snd r)) reads)).
+Proof. intros D c Hc. exact (@IterBridgeMore.slice_packed_observations D c Hc). Qed.
+Theorem C05B_observations_lmer : forall D c, In c shipped -> forall stranded (reads : list ((list N * nat) * N * D)),
+  Forall (fun r => l_inv (fst (fst (fst r))) /\ l_len (fst (fst (fst r))) = Some (snd (fst (fst r))) /\ snd (fst r) < 256) reads ->
+  packed_observations c
+    (fun xl e => iter_kmer_exts c (snd xl) (l_get (fst xl)) (l_get_kmer c (fst xl)) e)
+    stranded reads
+  = Some (Filter.observations (kK c) stranded
+            (map (fun r => (l_abs (fst (fst (fst r))), snd (fst r), snd r)) reads)).
+Proof. intros D c Hc. exact (@IterBridgeMore.lmer_packed_observations D c Hc). Qed.
+Print Assumptions C05B_observations_slice.
+Print Assumptions C05B_observations_lmer.
